@@ -341,7 +341,7 @@ def make_readonly(doc, k, twin=False):
         acc, strict = bool(pick(acc, 0, 1)), bool(pick(strict, 0, 1))
         seq = [(pick(m0, 0, n_models - 1), pick(o0, 0, nops - 1))]
         if k >= 2:
-            seq.append((pick(m1, 0, n_models - 1), pick(o1, 0, nops - 1)))
+            seq.append((seq[0][0], pick(o1, 0, nops - 1)))     # second operation on the same model (the pair space over two models is ~10^6 per document)
         with NoTracing():
             f = docenv.PARSER.parse(text, M.File, auto_claim_comments=acc)
             ms = tree_models(f)
@@ -388,7 +388,7 @@ for _d in DOCS:
             _reg(make_equal(_d, _acc, _kind, 47), {'C20': T}, 1800, 'equal',
                  'document %r, auto_claim_comments=%d: every tree model x perturbation: %s (48 places)' % (_d, _acc, EKINDS[_kind]))
     _reg(make_readonly(_d, 1), {'C04': Q}, 1800, 'readonly', 'document %r: both attribution modes x every tree model x 13 non-editing operation kinds (incl. arithmetic on number expressions) (lenient/strict claims)' % _d, cost=300)
-    _reg(make_readonly(_d, 2), {'C04': T}, 3300, 'readonly', 'document %r: sequences of 2 non-editing operations on 2 models' % _d)
+    _reg(make_readonly(_d, 2), {'C04': T}, 3300, 'readonly', 'document %r: both attribution modes x every tree model x every ordered pair of the 13 non-editing operation kinds on it' % _d)
 _reg(make_copy('txn', 1, 0, 11, twin=True), {'C11': Q}, 120, 'copy', 'vacuity twin', twin=True, cost=1)
 _reg(make_equal('txn', 1, 0, 11, twin=True), {'C20': Q}, 120, 'equal', 'vacuity twin', twin=True, cost=1)
 _reg(make_readonly('txn', 1, twin=True), {'C04': Q}, 120, 'readonly', 'vacuity twin', twin=True, cost=1)
